@@ -895,7 +895,7 @@ func init() {
 			"UnsetLogLevel(all) may clear everything or do nothing (documentation and code disagree, statement silent): either is accepted",
 		},
 		Floors: func(string) map[string]int64 {
-			return map[string]int64{"option-calls.stack": 10000, "option-calls.condition": 1000, "sequences.random": 1000, "string-reflections": 1000}
+			return map[string]int64{"option-calls.stack": 10000, "option-calls.condition": 1000, "sequences.random": 1000, "random.bystander-settings": 50000, "cases.with-bystander-goroutines": 2500, "string-reflections": 1000}
 		},
 	})
 }
